@@ -68,39 +68,66 @@ def sites_of(prog):
     return s
 
 
-def view_of(prog):
-    """plan view of an extracted program: per thread the providers called, each with the producers it waits for"""
-    owner = {}
+def view_of(prog, decl=None):
+    """plan view of an extracted program: per thread the providers called and the fields read (node `<structexp id>.<field>`),
+    each with the producers it waits for.  The struct a field read belongs to is found through the type of the variable read:
+    result k of provider p has the first type of p's k-th result group, a field has its declared type."""
+    vtype = {}
+    byid = {p['id']: p for p in (decl or {}).get('providers', [])}
+    expof = {p['struct']: p['id'] for p in (decl or {}).get('providers', []) if p['kind'] == 'structexp'}
+
+    def field_id(ins):
+        st = vtype.get(ins['src'])
+        x = expof.get(st)
+        if x is None:
+            return '?field:%s.%s' % (ins['src'], ins['field'])
+        ft = dict((f, t) for f, t in decl['types'][st].get('fields', [])).get(ins['field'])
+        if ins['dst'] != '_' and ft:
+            vtype[ins['dst']] = ft
+        return '%s.%s' % (x, ins['field'])
+    # types of variables: calls first (a field read may precede, in file order, the call that produces its struct)
     for th in prog['threads']:
-        last = None
         for ins in th:
+            if ins['op'] == 'call' and ins['p'] in byid:
+                for k, v in enumerate(ins['rets']):
+                    if v != '_' and k < len(byid[ins['p']].get('provides', [])):
+                        vtype[v] = byid[ins['p']]['provides'][k][0]
+    fid = {}
+    for _ in range(3):      # nested expansions: a field that is itself an expanded struct
+        for ti, th in enumerate(prog['threads']):
+            for ii, ins in enumerate(th):
+                if ins['op'] == 'field':
+                    fid[(ti, ii)] = field_id(ins)
+    owner = {}
+    for ti, th in enumerate(prog['threads']):
+        last = None
+        for ii, ins in enumerate(th):
             if ins['op'] == 'call':
                 last = ins['p']
             elif ins['op'] == 'field':
-                last = None
+                last = fid[(ti, ii)]
             if ins['op'] == 'close' and last:
                 for c in ins['chans']:
                     owner[c] = last
 
-    def tv(th):
+    def tv(ti, th):
         out, waits = [], []
-        for ins in th:
+        for ii, ins in enumerate(th):
             if ins['op'] == 'wait':
                 waits += [owner.get(c, '?' + c) for c in ins['chans']]
             if ins['op'] == 'call':
                 out.append([ins['p'], sorted(set(waits))])
                 waits = []
+            if ins['op'] == 'field':
+                out.append([fid[(ti, ii)], sorted(set(waits))])
+                waits = []
         return out
-    return {'main': tv(prog['threads'][0]), 'goroutines': [tv(t) for t in prog['threads'][1:]]}
+    return {'main': tv(0, prog['threads'][0]), 'goroutines': [tv(t + 1, th) for t, th in enumerate(prog['threads'][1:])]}
 
 
 def in_planner_domain(d):
-    if any(p['kind'] == 'structexp' for p in d['providers']):
-        return False
-    need = set(ds.needed(d))
-    for p in d['providers']:
-        if p['id'] in need and len(p.get('provides', [])) != 1:
-            return False
+    """Planner.tla plans every accepted declaration whose requested type is supplied (since the extension to providers with
+    several results and to struct expansions; before, those were outside)."""
     return ds.accepts(d) and d['ret'] in ds.suppliers(d)
 
 
@@ -112,7 +139,7 @@ def planner_conformance(work, decls, progs_by_id, name='plannercheck'):
         if p is None or p['unmodelled'] or not in_planner_domain(d):
             continue
         dd.append(ds.tla_decl(d))
-        views.append(view_of(p))
+        views.append(view_of(p, d))
     if not dd:
         return 0, []
     r = pl.tlc(work, 'PlannerCheck', 'PlannerCheck.cfg', files={'decls.json': json.dumps(dd), 'views.json': json.dumps(views)}, timeout=3000,
